@@ -252,7 +252,7 @@ def fixed_cases():
 
 
 def check(run: Run, lean: dict) -> int:
-    n = 1500 if run.tier == "quick" else 40000
+    n = run.budget(1500, 40000)
     run.extra["rule"] = (
         "seeded word sequences (lengths around width, width+-1, longer than width; ASCII, non-ASCII, "
         "astral and escaped characters) x width x indentation x depth 0-3 x chained/unchained text; "
